@@ -16,6 +16,7 @@ What is modelled, line by line against `Parser.parse_forest`:
   phase that are not yet in the *register* `_incomplete` (`Phase.two`, `nextNew`);
 * both insertion policies: `storeWhenExhausted` (`self._cache[key] = forest` after the loop; a
   generator that is abandoned stores nothing) and `appendWhileYielding` (the code before 4ee03385);
+* a hit with `include_controlflow=True` runs the loop without yielding anything (`hitYieldsCf`);
 * what a handed-out object shares with the object kept for the cache (`Share`): on the uncached
   path `collapse(tree)` builds new nodes but passes `tree.origin_repetitions` / `tree.sources` — the
   same list objects — on (`Share.lists`), and with `include_controlflow=True` the very object is
@@ -74,6 +75,9 @@ structure Config where
   policy : Policy
   /-- hits are served as `deepcopy(tree)` -/
   hitCopies : Bool
+  /-- the hit loop also yields when `include_controlflow=True` (today it only has the
+      `if not include_controlflow:` branch: such a hit yields nothing at all) -/
+  hitYieldsCf : Bool
   /-- uncached path, `include_controlflow=False` -/
   missShare : Share
   /-- uncached path, `include_controlflow=True` -/
@@ -207,6 +211,10 @@ variable (cfg : Config) (O : Oracle T)
 def begin (s : State T) (g : Nat) (r : Req) : State T :=
   match s.cache (keyOf cfg r) with
   | some ids =>
+    if r.cf && !cfg.hitYieldsCf then
+      -- the loop deep-copies every cached tree and yields none of them
+      { s with gens := upd s.gens g (some (.hit r [])) }
+    else
     match cfg.policy with
     | .storeWhenExhausted => { s with gens := upd s.gens g (some (.hit r ids)) }
     | .appendWhileYielding => { s with gens := upd s.gens g (some (.hitLive r 0)) }
@@ -367,17 +375,18 @@ end
 
 /-! ### named configurations -/
 
-/-- /repo after 4ee03385 (what `harness/translate_cache.py` reads off the source today) -/
+/-- /repo after 4ee03385 and before the fixes b339574e / 91610c1b / 7afb3369 / 13d797aa -/
 def Config.afterFix : Config :=
-  { policy := .storeWhenExhausted, hitCopies := true, missShare := .lists, missShareCf := .whole,
-    keySbit := false, keyStart := true, keyHook := true, keyMode := true, sharedRegs := true }
+  { policy := .storeWhenExhausted, hitCopies := true, hitYieldsCf := false, missShare := .lists,
+    missShareCf := .whole, keySbit := false, keyStart := true, keyHook := true, keyMode := true, sharedRegs := true }
 
 /-- /repo before 4ee03385 -/
 def Config.preFix : Config := { Config.afterFix with policy := .appendWhileYielding }
 
-/-- the target: complete key, copies everywhere, per-request parser state -/
+/-- complete key, copies everywhere, per-request parser state (what `harness/translate_cache.py`
+    reads off the source today) -/
 def Config.isolated : Config :=
-  { policy := .storeWhenExhausted, hitCopies := true, missShare := .none, missShareCf := .none,
-    keySbit := true, keyStart := true, keyHook := true, keyMode := true, sharedRegs := false }
+  { policy := .storeWhenExhausted, hitCopies := true, hitYieldsCf := true, missShare := .none,
+    missShareCf := .none, keySbit := true, keyStart := true, keyHook := true, keyMode := true, sharedRegs := false }
 
 end FV.PC
